@@ -62,15 +62,13 @@ def specExp : Char → Option Nat
 def specMult (s : Sys) (pfx : List Char) : Option Nat :=
   if pfx = [] then some 1 else (pfx.head?.bind specExp).map fun e => s.base pfx ^ e
 
-/-- a text `[sign]number[prefix]unit` and, optionally, the one trailing newline that Python's
-    `$` lets through (known finding N3) -/
+/-- a text `[sign]number[prefix]unit` -/
 structure Text where
   sign : Option Bool            -- none, `+` (some false), `-` (some true)
   ip : List Char                -- integer digits
   fp : Option (List Char)       -- fraction digits after a dot
   pfx : List Char
   unit : UnitText
-  nl : Bool
 
 def signChars : Option Bool → List Char
   | none => []
@@ -79,8 +77,18 @@ def signChars : Option Bool → List Char
 
 def Text.neg (t : Text) : Bool := t.sign = some true
 
-def render (t : Text) : List Char :=
-  signChars t.sign ++ (t.ip ++ dotFrac t.fp ++ (t.pfx ++ (t.unit.chars ++ nlChars t.nl)))
+/-- nothing, or the single newline that a `$` anchor would let through -/
+def nlChars (nl : Bool) : List Char := if nl then ['\n'] else []
+
+/-- the text, optionally followed by one newline -/
+def renderNl (t : Text) (nl : Bool) : List Char :=
+  signChars t.sign ++ (t.ip ++ dotFrac t.fp ++ (t.pfx ++ (t.unit.chars ++ nlChars nl)))
+
+/-- the text itself (`nlChars false = []`) -/
+def render (t : Text) : List Char := renderNl t false
+
+theorem lemma_render_newline (t : Text) : render t ++ ['\n'] = renderNl t true := by
+  simp [render, renderNl, nlChars, List.append_assoc]
 
 /-- digits well formed (`\d*\.?\d+`) and prefix admitted by the system (or absent) -/
 def Text.Admitted (s : Sys) (t : Text) : Prop :=
@@ -101,18 +109,18 @@ def Text.InRange (t : Text) (mult : Nat) : Prop :=
 
 /-! ### the code's tables against the documented ones -/
 
-/-- **Tables** — for each of the three systems the table entry (base, regex prefix class) is the
-    documented one, and every prefix the regex admits has an exponent in UNIT_PREFIX_EXPONENT
+/-- **Tables** — for each of the three systems the table entry (base, regex prefix class, end
+    anchor `\Z`: no trailing newline) is the documented one, and every prefix the regex admits has an exponent in UNIT_PREFIX_EXPONENT
     (finding D5: `ki` was missing) which, with the base rule, gives the documented multiplier. -/
 theorem s2b_tables_complete (s : Sys) :
-    lookupSys s.key = some (s.tableBase, s.letters, s.optI) ∧
+    lookupSys s.key = some (s.tableBase, s.letters, s.optI, false) ∧
     ∀ p ∈ s.prefixes, (multiplier s.key s.tableBase p).toOption = specMult s p ∧
                       (specMult s p).isSome = true := by
   cases s <;> decide
 
 /-- no other key is a unit system -/
-theorem lemma_lookupSys_some (key : List Char) (x : Option Nat × List Char × Bool)
-    (h : lookupSys key = some x) : ∃ s : Sys, key = s.key ∧ x = (s.tableBase, s.letters, s.optI) := by
+theorem lemma_lookupSys_some (key : List Char) (x : Option Nat × List Char × Bool × Bool)
+    (h : lookupSys key = some x) : ∃ s : Sys, key = s.key ∧ x = (s.tableBase, s.letters, s.optI, false) := by
   have h1 := (s2b_tables_complete .iec).1
   have h2 := (s2b_tables_complete .si).1
   have h3 := (s2b_tables_complete .mixed).1
@@ -176,19 +184,34 @@ theorem lemma_splitSign_render (sg : Option Bool) (ip : List Char) (fp : Option 
       | none => simp at hfp
       | some f => simp [dotFrac, splitSign]
 
+theorem lemma_parseUnit_tail (u : UnitText) (nl : Bool) :
+    parseUnit false (u.chars ++ nlChars nl) = if nl then none else some u.kind := by
+  cases u <;> cases nl <;> rfl
+
+/-- the model on a rendered, admitted text (with or without a trailing newline): number and prefix
+    are parsed as intended, the unit is matched against the strict end anchor -/
+theorem lemma_s2b_renderNl (s : Sys) (t : Text) (ha : t.Admitted s) (ri nl : Bool) :
+    stringToBytes s.key (renderNl t nl) ri =
+      if nl then .error .valueError
+      else compute s.key s.tableBase ri t.neg t.ip t.fp t.pfx t.unit.kind := by
+  obtain ⟨hwf, hp⟩ := ha
+  obtain ⟨h1, h2⟩ := lemma_tail s t.pfx hp t.unit nl
+  have hnum := lemma_parseNumber_render t.ip t.fp (tail t.pfx t.unit nl) hwf
+    (lemma_numEnd_of_headOk _ h1)
+  have hs := lemma_splitSign_render t.sign t.ip t.fp (tail t.pfx t.unit nl) hwf
+  unfold stringToBytes renderNl
+  rw [(s2b_tables_complete s).1]
+  simp only [tail] at hs hnum h2
+  simp only [hs, hnum, h2, lemma_parseUnit_tail, Text.neg]
+  cases nl <;> rfl
+
 /-- the model on a rendered, admitted text: the parse is the intended one -/
 theorem lemma_s2b_render (s : Sys) (t : Text) (ha : t.Admitted s) (ri : Bool) :
     stringToBytes s.key (render t) ri =
       compute s.key s.tableBase ri t.neg t.ip t.fp t.pfx t.unit.kind := by
-  obtain ⟨hwf, hp⟩ := ha
-  obtain ⟨h1, h2⟩ := lemma_tail s t.pfx hp t.unit t.nl
-  have hnum := lemma_parseNumber_render t.ip t.fp (tail t.pfx t.unit t.nl) hwf
-    (lemma_numEnd_of_headOk _ h1)
-  have hs := lemma_splitSign_render t.sign t.ip t.fp (tail t.pfx t.unit t.nl) hwf
-  unfold stringToBytes render
-  rw [(s2b_tables_complete s).1]
-  simp only [tail] at hs hnum h2
-  simp only [hs, hnum, h2, lemma_parseUnit_render, Text.neg]
+  unfold render
+  rw [lemma_s2b_renderNl s t ha ri false]
+  rfl
 
 theorem lemma_toOption_some {ε α : Type} (x : Except ε α) (a : α) (h : x.toOption = some a) : x = .ok a := by
   cases x <;> simp_all [Except.toOption]
@@ -238,8 +261,7 @@ theorem lemma_ceilDiv (num : Int) (den : Nat) (h : 0 < den) :
     admitted prefix (or none), every unit: the result is the float whose exact value is
     `±mant · base^exponent / (10^scale · (8 for bit units))`.
     Partial: proved for quantities inside the binary64 range (`InRange`); outside it Python
-    yields `inf` / a denormal, see `s2b_out_of_range` (known finding N3-float-range).  The text
-    may carry one trailing newline (`nl`), which the code accepts (known finding N3). -/
+    yields `inf` / a denormal, see `s2b_out_of_range` (known finding N3-float-range). -/
 theorem s2b_value_partial (s : Sys) (t : Text) (ha : t.Admitted s) (mult : Nat)
     (hm : specMult s t.pfx = some mult) (hr : t.InRange mult) :
     stringToBytes s.key (render t) false = .ok (.float (t.num mult) t.den) := by
@@ -277,12 +299,17 @@ theorem s2b_out_of_range (s : Sys) (t : Text) (ha : t.Admitted s) (mult : Nat)
     rw [lemma_s2b_finish s t ha mult hm]
     simp [finish, h1, h2, h3]
 
-/-- **The trailing newline** (known finding N3-trailing-newline, general form): a text with one
-    final newline is treated exactly like the text without it. -/
-theorem s2b_trailing_newline_accepted (s : Sys) (t : Text) (ha : t.Admitted s) (ri : Bool) :
-    stringToBytes s.key (render { t with nl := true }) ri =
-      stringToBytes s.key (render { t with nl := false }) ri := by
-  rw [lemma_s2b_render s { t with nl := true } ha ri, lemma_s2b_render s { t with nl := false } ha ri]
+/-- **End anchor** — every compiled unit regex ends in `\Z`, not `$` (generated anchor table,
+    kernel-checked): this is what `s2b_trailing_newline_rejected` and `s2b_rejects` rest on, and what
+    fails to build if the `$` of the repaired finding N3-trailing-newline comes back. -/
+theorem s2b_end_anchor_strict :
+    ∀ e ∈ unitSystemInfo, e.2.2.2.2 = false := by decide
+
+/-- **The trailing newline is rejected** (finding N3-trailing-newline, repaired): an admitted text
+    followed by a newline raises ValueError, for every system, sign, digits, prefix and unit. -/
+theorem s2b_trailing_newline_rejected (s : Sys) (t : Text) (ha : t.Admitted s) (ri : Bool) :
+    stringToBytes s.key (render t ++ ['\n']) ri = .error .valueError := by
+  rw [lemma_render_newline, lemma_s2b_renderNl s t ha ri true]
   rfl
 
 /-! ### rejection and error kinds -/
@@ -308,29 +335,28 @@ theorem lemma_mem_prefixes (s : Sys) (c : Char) (hc : s.letters.contains c = tru
 theorem lemma_parse_inv (s : Sys) (text d1 : List Char) (d2 : Option (List Char)) (r1 : List Char)
     (k : UnitKind)
     (hn : parseNumber (splitSign text).2 = some (d1, d2, r1))
-    (hu : parseUnit (parsePrefix s.letters s.optI r1).2 = some k) :
+    (hu : parseUnit false (parsePrefix s.letters s.optI r1).2 = some k) :
     ∃ t : Text, t.Admitted s ∧ text = render t ∧ t.pfx = (parsePrefix s.letters s.optI r1).1 := by
   obtain ⟨sg, hsg, _⟩ := lemma_splitSign_inv text
   obtain ⟨hbody, hwf⟩ := lemma_parseNumber_inv _ _ _ _ hn
   generalize hpp : parsePrefix s.letters s.optI r1 = pr at hu ⊢
   obtain ⟨p, r2⟩ := pr
   obtain ⟨hr1, hp⟩ := lemma_parsePrefix_inv s.letters s.optI r1 p r2 hpp
-  obtain ⟨u, nl, hr2, _⟩ := lemma_parseUnit_inv _ _ hu
+  obtain ⟨u, hr2, _⟩ := lemma_parseUnit_inv _ _ hu
   simp only at hr2
-  refine ⟨⟨sg, d1, d2, p, u, nl⟩, ⟨hwf, ?_⟩, ?_, rfl⟩
+  refine ⟨⟨sg, d1, d2, p, u⟩, ⟨hwf, ?_⟩, ?_, rfl⟩
   · rcases hp with hp | ⟨c, hc, hp | ⟨ho, hp⟩⟩
     · exact Or.inl hp
     · exact Or.inr (by simp only; rw [hp]; exact (lemma_mem_prefixes s c hc).1)
     · exact Or.inr (by simp only; rw [hp]; exact (lemma_mem_prefixes s c hc).2 ho)
-  · unfold render
-    simp only
+  · unfold render renderNl
+    simp only [nlChars, Bool.false_eq_true, ↓reduceIte, List.append_nil]
     rw [← hr2, ← hr1, ← hbody, ← hsg]
 
-/-- **Rejects** — in a known unit system, a text that is not `[sign]number[prefix]unit` with a
-    prefix the system admits raises ValueError.
-    Partial: `render` includes the variant with one trailing newline, which the code accepts
-    (known finding N3-trailing-newline, `s2b_trailing_newline_accepted`); every other text is covered. -/
-theorem s2b_rejects_partial (s : Sys) (text : List Char) (ri : Bool)
+/-- **Rejects** — in a known unit system, every text that is not `[sign]number[prefix]unit` with a
+    prefix the system admits raises ValueError (full strength: since the regexes end in `\Z` a
+    trailing newline is no exception, see `s2b_trailing_newline_rejected`). -/
+theorem s2b_rejects (s : Sys) (text : List Char) (ri : Bool)
     (h : ¬ ∃ t : Text, t.Admitted s ∧ text = render t) :
     stringToBytes s.key text ri = .error .valueError := by
   unfold stringToBytes
@@ -341,7 +367,7 @@ theorem s2b_rejects_partial (s : Sys) (text : List Char) (ri : Bool)
   | some num =>
     obtain ⟨d1, d2, r1⟩ := num
     simp only
-    cases hu : parseUnit (parsePrefix s.letters s.optI r1).2 with
+    cases hu : parseUnit false (parsePrefix s.letters s.optI r1).2 with
     | none => rfl
     | some k =>
       obtain ⟨t, ha, ht, _⟩ := lemma_parse_inv s text d1 d2 r1 k hn hu
@@ -389,7 +415,7 @@ theorem s2b_total_partial (key text : List Char) (ri : Bool) (e : Err)
       obtain ⟨d1, d2, r1⟩ := num
       rw [hn] at h
       simp only at h
-      cases hu : parseUnit (parsePrefix s.letters s.optI r1).2 with
+      cases hu : parseUnit false (parsePrefix s.letters s.optI r1).2 with
       | none => rw [hu] at h; simp at h; exact Or.inl h.symm
       | some k =>
         rw [hu] at h
@@ -411,22 +437,22 @@ def allPrefixes : List (List Char) := Sys.iec.prefixes ++ Sys.si.prefixes ++ Sys
 
 theorem lemma_foreign_tail (s : Sys) (p : List Char) (hp : p ∈ allPrefixes) (hn : p ∉ s.prefixes)
     (u : UnitText) (nl : Bool) :
-    headOk (tail p u nl) = true ∧ parseUnit (parsePrefix s.letters s.optI (tail p u nl)).2 = none := by
+    headOk (tail p u nl) = true ∧ parseUnit false (parsePrefix s.letters s.optI (tail p u nl)).2 = none := by
   have : ∀ p ∈ allPrefixes, p ∉ s.prefixes →
-      headOk (tail p u nl) = true ∧ parseUnit (parsePrefix s.letters s.optI (tail p u nl)).2 = none := by
+      headOk (tail p u nl) = true ∧ parseUnit false (parsePrefix s.letters s.optI (tail p u nl)).2 = none := by
     cases s <;> cases u <;> cases nl <;> decide
   exact this p hp hn
 
 /-- **Rejects, foreign prefix** — a prefix of another unit system (`k`, `ki` in IEC; `K`, `Ki`, `Mi`, …
-    in SI) raises ValueError, whatever the sign, digits, unit (and trailing newline). -/
+    in SI) raises ValueError, whatever the sign, digits and unit. -/
 theorem s2b_rejects_foreign_prefix (s : Sys) (t : Text) (hwf : NumWF t.ip t.fp)
     (hp : t.pfx ∈ allPrefixes) (hn : t.pfx ∉ s.prefixes) (ri : Bool) :
     stringToBytes s.key (render t) ri = .error .valueError := by
-  obtain ⟨h1, h2⟩ := lemma_foreign_tail s t.pfx hp hn t.unit t.nl
-  have hnum := lemma_parseNumber_render t.ip t.fp (tail t.pfx t.unit t.nl) hwf
+  obtain ⟨h1, h2⟩ := lemma_foreign_tail s t.pfx hp hn t.unit false
+  have hnum := lemma_parseNumber_render t.ip t.fp (tail t.pfx t.unit false) hwf
     (lemma_numEnd_of_headOk _ h1)
-  have hs := lemma_splitSign_render t.sign t.ip t.fp (tail t.pfx t.unit t.nl) hwf
-  unfold stringToBytes render
+  have hs := lemma_splitSign_render t.sign t.ip t.fp (tail t.pfx t.unit false) hwf
+  unfold stringToBytes render renderNl
   rw [(s2b_tables_complete s).1]
   simp only [tail] at hs hnum h2
   simp only [hs, hnum, h2]
@@ -436,7 +462,7 @@ theorem s2b_rejects_foreign_prefix (s : Sys) (t : Text) (hwf : NumWF t.ip t.fp)
 /-- `16.1kB`, SI: admitted, in range; exact quantity 161·1000/10 = 16100 (Python's binary64
     product gives 16100.000000000002 and, with return_int, 16101: known finding N3-float-rounding) -/
 example :
-    let t : Text := ⟨none, ['1', '6'], some ['1'], ['k'], .B, false⟩
+    let t : Text := ⟨none, ['1', '6'], some ['1'], ['k'], .B⟩
     t.Admitted .si ∧ specMult .si t.pfx = some 1000 ∧ t.InRange 1000 ∧
     render t = ['1', '6', '.', '1', 'k', 'B'] ∧
     stringToBytes Sys.si.key (render t) false = .ok (.float 161000 10) ∧
@@ -451,8 +477,8 @@ example : stringToBytes Sys.mixed.key ['1', 'k', 'i', 'b'] false = .ok (.float 1
 example : stringToBytes Sys.iec.key ['-', '.', '5', 'G', 'i', 'b', 'i', 't'] true = .ok (.int (-67108864)) := by
   decide +kernel
 
-/-- known finding N3-trailing-newline: `1KB\n` is accepted -/
-example : stringToBytes Sys.iec.key ['1', 'K', 'B', '\n'] false = .ok (.float 1024 1) := by decide +kernel
+/-- finding N3-trailing-newline (repaired): `1KB\n` is rejected -/
+example : stringToBytes Sys.iec.key ['1', 'K', 'B', '\n'] false = .error .valueError := by decide +kernel
 
 /-- known finding N3-float-range: a 310-digit magnitude with return_int raises OverflowError
     (and is `inf` without), not ValueError -/
